@@ -129,6 +129,8 @@ type Cluster struct {
 	FaultSteps                                                     int
 	cmd                                                            *cmdFeed
 	sending                                                        int // actor idx whose handlers are running (sender attribution)
+	// NoFaults switches off fault injection inside lockstepRound (synchronous suffix of C05).
+	NoFaults bool
 	// OnHang is called by the execution watchdog with the innermost repository frame the simulator thread is stuck in.
 	OnHang func(site string, traceTail []TraceEntry)
 }
